@@ -3,6 +3,7 @@ package midix
 import (
 	"fmt"
 	"log/slog"
+	"math"
 
 	"github.com/berquerant/crd/errorx"
 	"github.com/berquerant/crd/logx"
@@ -146,11 +147,32 @@ func NewTrack() *Track {
 }
 
 func (t Track) Len() int                       { return len(t.ops) }
-func (t *Track) AddTickDelta(tickDelta uint32) { t.tickDelta += tickDelta }
+func (t *Track) AddTickDelta(tickDelta uint32) { t.tickDelta = addTicks(t.tickDelta, tickDelta) }
 func (t *Track) Add(op *TrackOp) {
-	op.TickDelta += t.tickDelta
+	op.TickDelta = addTicks(op.TickDelta, t.tickDelta)
 	t.ops = append(t.ops, op)
 	t.tickDelta = 0
+}
+
+// MaxTickDelta is the largest delta time a Standard MIDI File can hold
+// (a variable-length quantity of 4 bytes).
+const MaxTickDelta = 1<<28 - 1
+
+// addTicks adds delta times, saturating instead of wrapping around.
+func addTicks(a, b uint32) uint32 {
+	if c := a + b; c >= a {
+		return c
+	}
+	return math.MaxUint32
+}
+
+func (t Track) validate() error {
+	for _, x := range t.ops {
+		if x.TickDelta > MaxTickDelta {
+			return errorx.Invalid("delta time of %d ticks exceeds %d", x.TickDelta, MaxTickDelta)
+		}
+	}
+	return nil
 }
 
 func (t Track) Apply(tt *smf.Track) {
